@@ -110,7 +110,7 @@ func (route *baseRoute) run() {
 
 // metricName returns the name (first field) of a "name value timestamp" line
 func metricName(buf []byte) []byte {
-	if pos := bytes.IndexByte(buf, ' '); pos > 0 {
+	if pos := bytes.IndexByte(buf, ' '); pos >= 0 {
 		return buf[:pos]
 	}
 	return buf
